@@ -64,6 +64,9 @@ class Conn:
         self.calls_after_close = []
         self.idle_streak = 0
         self.max_idle_streak = 0
+        s = _sched.CURRENT
+        if s is not None and s.batch_horizon:
+            s.horizon = s.now + s.batch_horizon
 
     # ---- peer side API (called from scripts / timers) ----
     def deliver(self, data: bytes, cuts=None):
